@@ -15,10 +15,14 @@ import (
 	"qchen.fun/fatchoy/sched"
 )
 
-// Op kinds: after d | every p | cancel id | add | del | advance n | clock n | size | sched id
+// Op kinds: after d | every p | cancel id | add | del | advance n | clock n | size | sched id | links
+// and the fine-grained tick `ftick n` (wheel: n = 1, one tick; heap: n units pass, then one tick): Sub[k] are the
+// client ops (after / every / cancel / size / sched) that run at the k-th schedule point INSIDE the tick
+// (before the worker takes the guard to decide about a node, or between that decision and the send).
 type Op struct {
-	K string `json:"k"`
-	A int64  `json:"a,omitempty"`
+	K   string `json:"k"`
+	A   int64  `json:"a,omitempty"`
+	Sub [][]Op `json:"sub,omitempty"`
 }
 
 func (o Op) String() string {
@@ -26,7 +30,20 @@ func (o Op) String() string {
 	case "add", "del", "size", "links":
 		return o.K
 	}
-	return o.K + " " + strconv.FormatInt(o.A, 10)
+	s := o.K + " " + strconv.FormatInt(o.A, 10)
+	if o.K == "ftick" {
+		for _, ops := range o.Sub {
+			s += " ["
+			for i, x := range ops {
+				if i > 0 {
+					s += ","
+				}
+				s += x.String()
+			}
+			s += "]"
+		}
+	}
+	return s
 }
 
 // Case is one history on a fresh scheduler.
@@ -119,8 +136,17 @@ func (r *Real) idsOf(serials []int) string {
 	return strings.Join(parts, ",")
 }
 
+// YieldStep is one schedule point reached inside a fine-grained tick and what the client ops placed there showed.
+type YieldStep struct {
+	Point string // decide | send
+	ID    int
+	Ops   []Op
+	Obs   []Obs
+}
+
 // Obs is what one op showed.
 type Obs struct {
+	Steps  []YieldStep // ftick
 	Out    string
 	ID     int   // after/every: id returned
 	Bool   bool  // cancel / sched / add / del
@@ -128,6 +154,43 @@ type Obs struct {
 	Fired  []int // advance: ids in delivery order
 	Panic  string
 	Refuse bool // the harness did not run the op (it would block the synchronous driver)
+}
+
+// doInner runs a client op from inside a schedule-point callback (a panic propagates to the tick's Guard).
+func (r *Real) doInner(o Op) Obs {
+	var ob Obs
+	switch o.K {
+	case "after", "every":
+		if r.d.PendingAdds() >= r.capReq {
+			ob.Out, ob.Refuse = "full", true
+			return ob
+		}
+		pr := &probe{serial: len(r.ids)}
+		r.ids = append(r.ids, 0)
+		var id int
+		if o.K == "after" {
+			id = r.t.RunAfter(int(o.A), pr)
+		} else {
+			id = r.t.RunEvery(int(o.A), pr)
+		}
+		r.ids[pr.serial] = id
+		ob.ID = id
+		ob.Out = "id=" + strconv.Itoa(id)
+	case "cancel":
+		if r.d.PendingDels() >= r.capReq {
+			ob.Out, ob.Refuse = "full", true
+			return ob
+		}
+		ob.Bool = r.t.Cancel(int(o.A))
+		ob.Out = strconv.FormatBool(ob.Bool)
+	case "size":
+		ob.N = r.t.Size()
+		ob.Out = strconv.Itoa(ob.N)
+	case "sched":
+		ob.Bool = r.t.IsScheduled(int(o.A))
+		ob.Out = strconv.FormatBool(ob.Bool)
+	}
+	return ob
 }
 
 // Do runs one op on the real code and returns the canonical answer line.
@@ -168,6 +231,41 @@ func (r *Real) Do(o Op) Obs {
 		case "del":
 			ob.Bool = r.d.StepDel()
 			ob.Out = map[bool]string{true: "ok", false: "none"}[ob.Bool]
+		case "ftick":
+			k := 0
+			cb := func(point string, id int) {
+				st := YieldStep{Point: point, ID: id}
+				if k < len(o.Sub) {
+					for _, co := range o.Sub[k] {
+						switch co.K {
+						case "after", "every", "cancel", "size", "sched":
+							st.Ops = append(st.Ops, co)
+							st.Obs = append(st.Obs, r.doInner(co))
+						}
+					}
+				}
+				k++
+				ob.Steps = append(ob.Steps, st)
+			}
+			if r.w != nil {
+				r.w.OnYield(cb)
+				defer r.w.OnYield(nil)
+				r.w.Advance(1)
+			} else {
+				r.q.OnYield(cb)
+				defer r.q.OnYield(nil)
+				r.q.Advance(o.A)
+				r.q.Tick()
+			}
+			ser := r.drain()
+			for _, s := range ser {
+				if s >= 0 && s < len(r.ids) {
+					ob.Fired = append(ob.Fired, r.ids[s])
+				} else {
+					ob.Fired = append(ob.Fired, -1)
+				}
+			}
+			ob.Out = "fired=" + r.idsOf(ser)
 		case "advance":
 			if r.w != nil {
 				r.w.Advance(o.A)
